@@ -144,8 +144,14 @@ class _Tunnel(Interface):
         )
         try:
             await self.transport.connect()
+            if self._disconnecting:
+                raise CommunicationError("Disconnected while connecting")
             await self.setup_tunnel()
             await self._connect_request()
+            if self._disconnecting:
+                # close the channel the server has just opened for us
+                await self._disconnect_request()
+                raise CommunicationError("Disconnected while connecting")
         except (OSError, CommunicationError) as ex:
             logger.debug(
                 "Could not establish connection to KNX/IP interface. %s: %s",
